@@ -110,12 +110,15 @@ def stepCfg (args : List String) : String :=
     | _, _, _, _, _, _, _ => "bad-op"
   | _ => "bad-op"
 
+/-- a key of the real database is any byte string; the model's `Key` is a `String`: every byte becomes
+    the character with that code (injective, and bytewise order = the model's code-point order), so
+    keys that are not valid UTF-8 are keys like any other -/
 def keyOfHex (h : String) : Option Key :=
   match unhex h with
-  | some bs => String.fromUTF8? (ByteArray.mk bs.toArray)
+  | some bs => some (String.ofList (bs.map (fun b => Char.ofNat b.toNat)))
   | none => none
 
-def hexOfKey (k : Key) : String := hexOrDash k.toUTF8.toList
+def hexOfKey (k : Key) : String := hexOrDash (k.toList.map (fun c => UInt8.ofNat c.toNat))
 
 def showErr : Err → String
   | .notFound => "NotFound" | .emptyKey => "EmptyKey" | .txNotFound => "TxNotFound"
